@@ -11,17 +11,21 @@ pub const VAR_NAMES: &[&str] = &[
 pub const PRED_NAMES: &[&str] = &["p", "q", "r", "s", "hp", "tp", "t", "h", "q_p", "p__s"];
 pub const SYM_NAMES: &[&str] = &["a", "b", "c", "n", "p", "s"];
 pub const FC_NAMES: &[&str] = &["a", "n", "c"];
+/// identifier shapes the input grammars accept but that stress the TFF name mangling (C09)
+pub const HOSTILE_SYMS: &[&str] = &["a", "b", "_a", "n_i", "general", "symbol", "p", "a__s", "c_g", "x_s", "f__integer__"];
+pub const HOSTILE_PREDS: &[&str] = &["p", "q", "_p", "a", "general", "p__less__", "q_p", "a__s"];
 
 pub struct Gen {
     pub rng: Rng,
     /// number of variable names drawn from (small = many collisions)
     pub nvars: usize,
     pub npreds: usize,
+    pub hostile: bool,
 }
 
 impl Gen {
     pub fn new(rng: Rng) -> Self {
-        Gen { rng, nvars: 8, npreds: 4 }
+        Gen { rng, nvars: 8, npreds: 4, hostile: false }
     }
 
     pub fn numeral(&mut self) -> isize {
@@ -324,7 +328,7 @@ impl Gen {
         match k {
             0 | 1 => Variable(asp::Variable(self.var_name())),
             2 | 3 => PrecomputedTerm(asp::PrecomputedTerm::Numeral(self.numeral())),
-            4 => PrecomputedTerm(asp::PrecomputedTerm::Symbol(self.rng.pick(SYM_NAMES).to_string())),
+            4 => PrecomputedTerm(asp::PrecomputedTerm::Symbol(if self.hostile { self.rng.pick(HOSTILE_SYMS) } else { self.rng.pick(SYM_NAMES) }.to_string())),
             5 => PrecomputedTerm(if self.rng.chance(1, 2) { asp::PrecomputedTerm::Infimum } else { asp::PrecomputedTerm::Supremum }),
             6 => UnaryOperation { op: asp::UnaryOperator::Negative, arg: Box::new(self.aterm(depth - 1)) },
             _ => {
@@ -337,7 +341,7 @@ impl Gen {
 
     pub fn aatom(&mut self, depth: usize) -> asp::Atom {
         let n = self.npreds.min(PRED_NAMES.len());
-        let name = PRED_NAMES[self.rng.below(n)].to_string();
+        let name = if self.hostile { self.rng.pick(HOSTILE_PREDS).to_string() } else { PRED_NAMES[self.rng.below(n)].to_string() };
         let arity = match self.rng.below(8) {
             0 | 1 => 0,
             2..=5 => 1,
